@@ -155,15 +155,33 @@ def session_part(ctx):
             rnd = random.Random(ctx.seed * 7919 + 31 * i + 5)
             prefix, probe, desc = session_case(rnd, G, S)
             A.restore(base)
-            resA = A.run_session([b"".join(prefix + [probe])], S.make_cert(), digests=False)
+            other_client = (i % 4 == 3)
+            if other_client:
+                # the prefix comes from ANOTHER client (own connection) whose certificate has a different subject
+                # and, as certificates of different issuers may, the same serial number as the prober's
+                desc = ["other-client(same certificate serial)"] + desc
+                cert_p = S.make_cert(("carol",), "client", serial=515000 + i)
+                cert_q = S.make_cert(("alice",), "client", serial=515000 + i)
+                prefix = [G.encode_request(G.mkreq(12, [{"op": "query", "bid": None, "crypto": None,
+                                                         "functions": [1]}]))] + prefix
+                resP = A.run_session([b"".join(prefix)], cert_p, digests=False)
+                resQ = A.run_session([probe], cert_q, digests=False)
+                resA = {"out": list(resP["out"]) + list(resQ["out"])}
+            else:
+                cert_q = S.make_cert()
+                resA = A.run_session([b"".join(prefix + [probe])], cert_q, digests=False)
             snap = A.snapshot()
             B = S.Rig()
             try:
                 B.restore(snap)
-                resB = B.run_session([probe], S.make_cert(), digests=False)
+                # the fresh side uses a certificate of the same subject with a serial number nobody used before: the
+                # established identity is the same by the property, and no process-wide state can know it
+                cert_f = cert_q if not other_client else S.make_cert(("alice",), "client", serial=600000 + i)
+                resB = B.run_session([probe], cert_f, digests=False)
             finally:
                 B.close()
-            rep = {"kind": "session-probe", "prefix": [f.hex() for f in prefix], "probe": probe.hex(), "what": desc}
+            rep = {"kind": "session-probe", "prefix": [f.hex() for f in prefix], "probe": probe.hex(), "what": desc,
+                   "other_client": other_client}
             if len(resA["out"]) != len(prefix) + 1 or len(resB["out"]) != 1:
                 ctx.report("c11:session-answers-missing", "%s: %d answers for %d frames (fresh: %d)"
                            % (desc, len(resA["out"]), len(prefix) + 1, len(resB["out"])), rep)
